@@ -56,7 +56,12 @@ def check_type(value: Any, attr_type: Type) -> bool:
             return any(check_type(value, type_) for type_ in attr_type.__args__)
 
         if attr_type.__origin__ in (Literal, LiteralExtension):
-            return value in attr_type.__args__
+            # (choices are compared together with their type: `Literal[1]`
+            # admits neither `True` nor `1.0`)
+            return any(
+                type(value) is type(choice) and value == choice
+                for choice in attr_type.__args__
+            )
 
         if (
             isinstance(attr_type, _GenericAlias)
